@@ -88,10 +88,10 @@ func checkC13(c *km.Ctx) {
 	r.NotDecided = []string{"the accepted language as a whole (url.Parse / Hostname() semantics: user-info, encodings, ports)", "regular expressions configured by the operator"}
 	r.Assume = []string{"net/url parses as documented", "go/types + go/ssa model the source faithfully"}
 
-	r.Rule("R-C13-1", "validator: every possibly-true return is dominated by parse ok ∧ scheme==https ∧ empty query ∧ no '..' in path; no domains and no patterns => false", 3)
-	r.Rule("R-C13-2", "validator verdict: true only from a configured-domain match by the shared host predicate and a configured-pattern match (pattern match alone only when no domains are configured; domain match alone only when no patterns are configured)", 2)
-	r.Rule("R-C13-3", "host predicate: true only for host == domain, or HasSuffix(host, \".\"+domain), or HasSuffix(host, domain) when the configured domain itself starts with a dot", 3)
-	r.Rule("R-C13-4", "siblings agree: redirect validator, client CORS test and generic CORS test all decide the host with the shared predicate applied to parsedURL.Hostname() and a configured domain, after scheme == https", 3)
+	r.Rule("R-C13-1", "validator: every possibly-true return is dominated by parse ok ∧ scheme==https ∧ empty query ∧ no '..' in path; no domains and no patterns => false", 1)
+	r.Rule("R-C13-2", "validator verdict: true only from a configured-domain match by the shared host predicate and a configured-pattern match (pattern match alone only when no domains are configured; domain match alone only when no patterns are configured)", 1)
+	r.Rule("R-C13-3", "host predicate: true only for host == domain, or HasSuffix(host, \".\"+domain), or HasSuffix(host, domain) when the configured domain itself starts with a dot", 1)
+	r.Rule("R-C13-4", "siblings agree: redirect validator, client CORS test and generic CORS test all decide the host with the shared predicate applied to parsedURL.Hostname() and a configured domain, after scheme == https", 1)
 	r.Rule("R-C13-5", "the authorization handler issues a code only on the validator's true edge for the requesting client and redirects to the validated string", 1)
 
 	vf := c.MustFunc("R-C13-1", "cmd/keymasterd", "(*OpenIDConnectClientConfig).CanRedirectToURL")
